@@ -43,7 +43,7 @@ Theorem undecomposed_bodies :
   = [ ("", "asm.irDIEnumerator", (1, 0));                   (* a switch with an init statement *)
       ("", "constant.NewCharArrayFromString", (0, 1));      (* the conversion []byte(s) *)
       ("", "constant.NewFloat", (1, 0));                    (* literal codecs: Model/FloatBits.v, FloatX87.v, FloatPPC.v *)
-      ("", "constant.NewFloatFromString", (13, 3));
+      ("", "constant.NewFloatFromString", (13, 6));            (* +3 with the KF-40 repair: big.Rat calls *)
       ("", "constant.NewIntFromString", (2, 0));            (* Model/IntLit.v *)
       ("", "dwarfTagString", (0, 1));
       ("constant.Float", "Ident", (4, 3));
